@@ -49,6 +49,7 @@ def main():
         try:
             res = odetoolbox.analysis(indict, **c.get("flags", {}))
             rec["result"] = canon(res)
+            rec["raw"] = [{g: dict(sorted((k, str(v)) for k, v in s_.get(g, {}).items())) for g in ("update_expressions", "propagators")} for s_ in res]
         except BaseException as e:
             rec["exception"] = type(e).__name__
         rec["input_unmodified"] = (indict == before)
